@@ -5,6 +5,7 @@ function, every evaluation order without repetitions, and every finite action se
 -/
 import PrimaiteModel.Model.Episode
 import PrimaiteModel.Gen.Episode
+import PrimaiteModel.Props.C05
 namespace Primaite.Episode
 
 variable {σ Act Req Resp : Type}
@@ -320,12 +321,238 @@ theorem C01_episode_contract (sem : Sem σ Act Req Resp) (order : List Nat) (hnd
   have := congrArg List.length hts
   simpa [tsOf] using this
 
+/-- `info["agent_actions"][name] = agent.history[-1]` is well defined after every step and names the item of THIS
+step: from a state satisfying the invariant, after `envStep` every agent's history is non-empty and its last item is
+stamped with the tick the step started at. -/
+theorem C01_info_last_item (sem : Sem σ Act Req Resp) (order : List Nat) (hnd : order.Nodup)
+    (g : Game σ Req Resp) (h : Inv g) (a : Act) :
+    ∀ ag ∈ (envStep sem order g a).1.agents, ∃ it, ag.hist.getLast? = some it ∧ it.timestep = g.step := by
+  intro ag hag
+  have hI := envStep_inv sem order hnd g a h
+  have hts := hI.ts ag hag
+  have hstep : (envStep sem order g a).1.step = g.step + 1 := (envStep_step sem order g a).1
+  rw [hstep, List.range_succ] at hts
+  unfold tsOf at hts
+  cases hl : ag.hist.getLast? with
+  | none =>
+    have : ag.hist = [] := List.getLast?_eq_none_iff.mp hl
+    rw [this] at hts; simp at hts
+  | some it =>
+    refine ⟨it, rfl, ?_⟩
+    obtain ⟨pre, hp⟩ := hist_split ag.hist it hl
+    rw [hp, List.map_append] at hts
+    have := congrArg List.getLast? hts
+    simpa using this
+
+/-- Whole-run form of the truncation clause, including steps taken AFTER truncation: from a reset, the k-th step of the
+episode (k = number of steps taken, this one included) reports `truncated` iff k ≥ max — so once the maximum has been
+reached every further step of the same episode reports it again. -/
+theorem C01_truncated_whole_run (sem : Sem σ Act Req Resp) (order : List Nat) (build : Nat → σ) (n maxLen ep : Nat)
+    (as : List Act) (a : Act) :
+    (envStep sem order (run sem order (envReset sem order build n maxLen ep) as) a).2.truncated
+      = decide (maxLen ≤ as.length + 1) ∧
+    (envStep sem order (run sem order (envReset sem order build n maxLen ep) as) a).2.terminated = false := by
+  obtain ⟨h1, h2, _⟩ := C01_step_counter sem order (envReset sem order build n maxLen ep) as
+  obtain ⟨t1, t2⟩ := C01_truncated_iff sem order (run sem order (envReset sem order build n maxLen ep) as) a
+  refine ⟨?_, t2⟩
+  rw [t1, h1, h2]
+  simp [envReset]
+
+/-! ### responses: every history item carries a documented status (on top of C05's dispatch) -/
+
+/-- the responses recorded in an agent's history, oldest first -/
+def respOf (ag : Agent Req Resp) : List Resp := ag.hist.map (·.response)
+
+theorem updOne_resp (sem : Sem σ Act Req Resp) (step : Nat) (s : σ) (i : Nat) (done) (ag : Agent Req Resp) :
+    respOf (updOne sem step s i done ag) = respOf ag := by
+  unfold updOne respOf
+  by_cases hs : step > 0
+  · simp only [hs, if_true]
+    cases hl : ag.hist.getLast? with
+    | none => simp
+    | some it =>
+      obtain ⟨pre, hp⟩ := hist_split ag.hist it hl
+      simp only [hp, setLastReward_append]
+      simp
+  · simp [hs]
+
+/-- `apply_agent_actions` appends to every agent exactly one item, whose response is what `apply_request` answered to
+some request in some simulation state. -/
+theorem applyActions_resp (sem : Sem σ Act Req Resp) (t : Nat) (a : Act) (i : Nat) (ags : List (Agent Req Resp)) (s : σ) :
+    ∀ ag' ∈ (applyActions sem t a i ags s).1, ∃ ag ∈ ags, ∃ (req : Req) (s' : σ),
+      respOf ag' = respOf ag ++ [(sem.apply req s').2] := by
+  induction ags generalizing i s with
+  | nil => simp [applyActions]
+  | cons ag rest ih =>
+    intro ag' hag'
+    simp only [applyActions, List.mem_cons] at hag'
+    rcases hag' with h | h
+    · exact ⟨ag, List.mem_cons_self, sem.choose i t a s, s, by rw [h]; simp [respOf]⟩
+    · obtain ⟨ag0, hmem, req, s', he⟩ := ih (i + 1) (sem.apply (sem.choose i t a s) s).1 ag' h
+      exact ⟨ag0, List.mem_cons_of_mem _ hmem, req, s', he⟩
+
+/-- A property of single responses that `apply_request` always guarantees is a property of every recorded response,
+after any action sequence, for every agent. -/
+theorem responses_invariant (sem : Sem σ Act Req Resp) (order : List Nat) (P : Resp → Prop)
+    (hP : ∀ req s, P (sem.apply req s).2) (g : Game σ Req Resp)
+    (hg : ∀ ag ∈ g.agents, ∀ r ∈ respOf ag, P r) (as : List Act) :
+    ∀ ag ∈ (run sem order g as).agents, ∀ r ∈ respOf ag, P r := by
+  induction as generalizing g with
+  | nil => simpa [run] using hg
+  | cons a as ih =>
+    simp only [run]
+    apply ih
+    simp only [envStep]
+    apply updateAgents_forall sem (g.step + 1) _ (fun ag => ∀ r ∈ respOf ag, P r)
+    · intro i done ag h
+      rw [updOne_resp]; exact h
+    · intro ag' hag' r hr
+      obtain ⟨ag, hmem, req, s', he⟩ := applyActions_resp sem g.step a 0 g.agents (sem.pre g.step g.sim) ag' hag'
+      rw [he] at hr
+      rcases List.mem_append.mp hr with h | h
+      · exact hg ag hmem r h
+      · simp only [List.mem_singleton] at h
+        rw [h]; exact hP req s'
+
+/-- `ReqSim.apply` is C05's execution: with handlers that answer a status, it is `execK` (so everything C05 proves about
+refused and reached requests applies to the responses recorded here). -/
+theorem ReqSim_apply_eq_execK (R : ReqSim σ) (run' : Request.HId → List Request.Key → σ → σ × Request.Status)
+    (hh : ∀ h a s, R.handler h a s = ((run' h a s).1, some (run' h a s).2)) (req : List Request.Key) (s : σ) :
+    R.apply req s = ((Request.execK (R.env s) run' (R.kids s) req s).1,
+                     some (Request.execK (R.env s) run' (R.kids s) req s).2) := by
+  unfold ReqSim.apply
+  rw [Request.C05_exec_follows_dispatch (R.env s) run' (R.kids s) req s 0]
+  cases Request.dispatchK (R.env s) (R.kids s) req 0 with
+  | unreachable d => rfl
+  | failure d v => rfl
+  | reached h args => simp [hh]
+
+/-- One request: a refusal leaves the simulation untouched and is answered `unreachable` or `failure` by the manager
+itself; otherwise the answer is the handler's. -/
+theorem ReqSim_apply_cases (R : ReqSim σ) (req : List Request.Key) (s : σ) :
+    (R.apply req s = (s, some .unreachable)) ∨ (R.apply req s = (s, some .failure)) ∨
+    (∃ h args, Request.dispatchK (R.env s) (R.kids s) req 0 = .reached h args ∧ R.apply req s = R.handler h args s) := by
+  unfold ReqSim.apply
+  cases hd : Request.dispatchK (R.env s) (R.kids s) req 0 with
+  | unreachable d => exact Or.inl rfl
+  | failure d v => exact Or.inr (Or.inl rfl)
+  | reached h args => exact Or.inr (Or.inr ⟨h, args, rfl, rfl⟩)
+
+/-- Every agent history item carries a response with one of the four documented statuses — for every request tree,
+every valuation of the validators, every agent policy and every action sequence — PROVIDED every handler answers with a
+`RequestResponse` (refusals are built by the request manager and always do).  Starts from any game whose recorded
+responses are documented, in particular a freshly reset one. -/
+theorem C01_responses_documented (sem : Sem σ Act (List Request.Key) RawResp) (R : ReqSim σ)
+    (happly : sem.apply = R.apply) (hhandlers : ∀ h args s, (R.handler h args s).2.isSome = true)
+    (order : List Nat) (g : Game σ (List Request.Key) RawResp)
+    (hg : ∀ ag ∈ g.agents, ∀ r ∈ respOf ag, r.isSome = true) (as : List Act) :
+    ∀ ag ∈ (run sem order g as).agents, ∀ r ∈ respOf ag, ∃ st ∈ allStatuses, r = some st := by
+  have key := responses_invariant sem order (fun r => r.isSome = true)
+    (by
+      intro req s
+      rw [happly]
+      rcases ReqSim_apply_cases R req s with h | h | ⟨hd, args, _, h⟩
+      · rw [h]; rfl
+      · rw [h]; rfl
+      · rw [h]; exact hhandlers hd args s) g hg as
+  intro ag hag r hr
+  have := key ag hag r hr
+  cases r with
+  | none => simp at this
+  | some st => exact ⟨st, by cases st <;> simp [allStatuses], rfl⟩
+
+/-- … in particular from a reset (empty histories). -/
+theorem C01_responses_documented_from_reset (sem : Sem σ Act (List Request.Key) RawResp) (R : ReqSim σ)
+    (happly : sem.apply = R.apply) (hhandlers : ∀ h args s, (R.handler h args s).2.isSome = true)
+    (order : List Nat) (build : Nat → σ) (n maxLen ep : Nat) (as : List Act) :
+    ∀ ag ∈ (run sem order (envReset sem order build n maxLen ep) as).agents,
+      (∀ r ∈ respOf ag, ∃ st ∈ allStatuses, r = some st) ∧ (respOf ag).length = as.length := by
+  obtain ⟨_, _, hz, _⟩ := C01_reset_fresh sem order build n maxLen ep
+  intro ag hag
+  refine ⟨C01_responses_documented sem R happly hhandlers order _ ?_ as ag hag, ?_⟩
+  · intro ag0 h0 r hr
+    have := (hz ag0 h0).1
+    simp [respOf, this] at hr
+  · -- one response per step: the history has exactly `as.length` items (needs no hypothesis on the order here)
+    have hlen : ∀ (g : Game σ (List Request.Key) RawResp) (as : List Act) (k : Nat),
+        (∀ ag ∈ g.agents, (respOf ag).length = k) →
+        ∀ ag ∈ (run sem order g as).agents, (respOf ag).length = k + as.length := by
+      intro g as
+      induction as generalizing g with
+      | nil => intro k h; simpa [run] using h
+      | cons a as ih =>
+        intro k h ag hag
+        simp only [run] at hag
+        have := ih (envStep sem order g a).1 (k + 1) (by
+          intro ag' hag'
+          simp only [envStep] at hag'
+          have hP := updateAgents_forall sem (g.step + 1)
+            (sem.tick (g.step + 1) (applyActions sem g.step a 0 g.agents (sem.pre g.step g.sim)).2)
+            (fun ag => (respOf ag).length = k + 1)
+            (by intro i done ag h; rw [updOne_resp]; exact h) order []
+            (applyActions sem g.step a 0 g.agents (sem.pre g.step g.sim)).1
+            (by
+              intro ag1 h1
+              obtain ⟨ag0, hmem, req, s', he⟩ := applyActions_resp sem g.step a 0 g.agents (sem.pre g.step g.sim) ag1 h1
+              rw [he]; simp [h ag0 hmem])
+          exact hP ag' hag') ag hag
+        simp only [List.length_cons]; omega
+    have := hlen (envReset sem order build n maxLen ep) as 0 (by
+      intro ag0 h0
+      have := (hz ag0 h0).1
+      simp [respOf, this]) ag hag
+    omega
+
+/-- The hypothesis on the handlers is needed: with ONE handler that hands back something that is not a
+`RequestResponse` (finding class F-2: handlers returning `None`), the very first step records an item without a
+documented status. -/
+def badSim : ReqSim Nat where
+  kids := fun _ => [("do", 0, .leaf 7)]
+  env := fun _ _ _ => true
+  handler := fun _ _ s => (s + 1, none)
+
+def badSem : Sem Nat Nat (List Request.Key) RawResp where
+  pre := fun _ s => s
+  choose := fun _ _ _ _ => ["do"]
+  apply := badSim.apply
+  tick := fun _ s => s
+  reward := fun _ _ _ _ => 0
+
+theorem C01_handler_contract_needed :
+    ¬ (∀ (sem : Sem Nat Nat (List Request.Key) RawResp) (R : ReqSim Nat), sem.apply = R.apply →
+        ∀ (as : List Nat), ∀ ag ∈ (run sem [0] (envReset sem [0] (fun _ => 0) 1 5 0) as).agents,
+          ∀ r ∈ respOf ag, ∃ st ∈ allStatuses, r = some st) := by
+  intro h
+  have := h badSem badSim rfl [0]
+  simp [run, envStep, envReset, updateAgents, updOne, applyActions, badSem, badSim, ReqSim.apply, Request.dispatchK,
+    Request.lookup, respOf, setLastReward] at this
+
+/-- non-vacuity of `C01_responses_documented`: a tree with a validator that refuses, a missing target and a handler -/
+def okSim : ReqSim Nat where
+  kids := fun _ => [("node", 0, .node [("pc", 1, .node [("shutdown", 0, .leaf 3)])])]
+  env := fun s v _ => v != 1 || s % 2 == 0
+  handler := fun _ _ s => (s + 1, some .success)
+
+def okSem : Sem Nat Nat (List Request.Key) RawResp where
+  pre := fun _ s => s
+  choose := fun i _ a _ => if a = 0 then ["node", "pc", "shutdown"] else if i = 0 then ["node", "nowhere"] else ["node", "pc", "shutdown"]
+  apply := okSim.apply
+  tick := fun _ s => s
+  reward := fun _ _ _ _ => 0
+
+example : ∀ h args s, (okSim.handler h args s).2.isSome = true := by intro _ _ _; rfl
+example : ((run okSem [0, 1] (envReset okSem [0, 1] (fun _ => 0) 2 9 0) [0, 0, 1]).agents.map respOf) =
+    [[some .success, some .failure, some .unreachable], [some .failure, some .failure, some .failure]] := by decide
+
 /-! ### tie to the regenerated pipeline (Gen/Episode.lean, rewritten from the source on every run) -/
 
 open Primaite.Gen.Episode in
 /-- The order of calls in `PrimaiteGymEnv.step`, `advance_timestep`, `apply_agent_actions`, `update_agents` and
 `reset`, the comparator of `calculate_truncated`, the literal `terminated = False` and the single history append are
-the ones `envStep` / `envReset` model. -/
+the ones `envStep` / `envReset` model; `PrimaiteRayMARLEnv.step/reset` call the same game methods in the same order
+(that is what the rig's driver for scenarios with several RL agents mirrors); `PrimaiteGame.step` (scripted agents
+only) is the same sequence without the stored action, plus an observation update at tick 0 that the bookkeeping does
+not see. -/
 theorem C01_gen_pipeline :
     stepPipeline = ["store_action", "pre_timestep", "apply_agent_actions", "advance_timestep", "get_sim_state",
                     "update_agents", "_get_obs", "calculate_truncated"] ∧
@@ -337,11 +564,33 @@ theorem C01_gen_pipeline :
     resetPipeline = ["episode_counter += 1", "from_config(episode_scheduler(episode_counter))", "setup_for_episode",
                      "get_sim_state", "update_agents", "_get_obs"] ∧
     terminatedLiteral = false ∧ historyAppendsPerResponse = 1 ∧
-    (∀ s m : Nat, calculateTruncated s m = decide (s ≥ m)) := by
-  refine ⟨by decide, by decide, by decide, by decide, by decide, by decide, by decide, ?_⟩
+    (∀ s m : Nat, calculateTruncated s m = decide (s ≥ m)) ∧
+    marlStepPipeline = stepPipeline ∧ marlResetPipeline = resetPipeline ∧ marlTerminatedLiteral = false ∧
+    gameStepPipeline = ["pre_timestep", "if step_counter == 0", "get_sim_state", "update_observation",
+                        "apply_agent_actions", "advance_timestep", "get_sim_state", "update_agents"] := by
+  refine ⟨by decide, by decide, by decide, by decide, by decide, by decide, by decide, ?_, by decide, by decide, by decide,
+    by decide⟩
   intro s m
   unfold calculateTruncated
   by_cases h : s ≥ m <;> simp [h]
+
+open Primaite.Gen.Episode in
+/-- Shape of one history record: `process_action_response` is the single statement
+`self.history.append(AgentHistoryItem(timestep=…, action=…, parameters=…, request=…, response=…, observation=…))` with
+every required field passed through unchanged, nobody overrides it (or `save_reward_to_history`, which writes only the
+reward of the last item), the `response` field is a `RequestResponse`, and the `Literal` of `RequestResponse.status`
+is exactly the four statuses of the model (`Item`, `setLastReward`, `allStatuses`). -/
+theorem C01_gen_history_item :
+    historyItemConstruction = [("timestep", "timestep"), ("action", "action"), ("parameters", "parameters"),
+                               ("request", "request"), ("response", "response"), ("observation", "observation")] ∧
+    historyItemRequired = ["timestep", "action", "parameters", "request", "response"] ∧
+    (∀ f ∈ historyItemRequired, (f, f) ∈ historyItemConstruction) ∧
+    historyItemFields.lookup "response" = some "RequestResponse" ∧
+    historyItemFields.lookup "reward" = some "Optional[float]" ∧
+    saveRewardBody = ["self.history[-1].reward = self.reward_function.current_reward"] ∧
+    historyWriterOverrides = [] ∧
+    responseStatusLiteral = allStatuses.map statusName ∧ responseModelForbidsExtra = true := by
+  decide
 
 /-! non-vacuity: a concrete two-agent game, run for three steps -/
 def exSem : Sem Nat Nat Nat Nat where
